@@ -115,7 +115,8 @@ class DictDecodeError(Exception):
 
 
 def decode(cell, width, aug_bits=None):
-    """-> (leaves {key str: (value bits, refs)}, extras list in the library's order or None, pruned prefixes)"""
+    """-> (leaves {key str: (value bits, refs)}, extras list in the library's order or None, pruned prefixes)
+    aug_bits: None (plain Hashmap), a bit width (uint extras) or a callable (bits, pos, refs, ref_pos) -> (extra, new pos, new ref_pos)"""
     leaves, extras, pruned = {}, [], []
 
     def read_label(bits, m_len):
@@ -143,16 +144,22 @@ def decode(cell, width, aug_bits=None):
         prefix += label
         rest = m_len - len(label)
         if rest == 0:
-            if aug_bits is not None:
+            ri = 0
+            if callable(aug_bits):
+                x, p, ri = aug_bits(c.bits, p, c.refs, 0)
+                extras.append(x)
+            elif aug_bits is not None:
                 extras.append(int(c.bits[p:p + aug_bits], 2) if aug_bits else 0)
                 p += aug_bits
-            leaves[prefix] = (c.bits[p:], list(c.refs))
+            leaves[prefix] = (c.bits[p:], list(c.refs[ri:]))
         else:
             if len(c.refs) < 2:
                 raise DictDecodeError('fork without two refs')
             walk(c.refs[0], rest - 1, prefix + '0')
             walk(c.refs[1], rest - 1, prefix + '1')
-            if aug_bits is not None:
+            if callable(aug_bits):
+                extras.append(aug_bits(c.bits, p, c.refs, 2)[0])
+            elif aug_bits is not None:
                 extras.append(int(c.bits[p:p + aug_bits], 2) if aug_bits else 0)
     walk(cell, width, '')
     return leaves, (extras if aug_bits is not None else None), pruned
@@ -171,3 +178,11 @@ def selftest():
         c = encode(m, w, aug=(lambda v: int(v[0], 2), lambda a, b: (a + b) % 65536, 16))
         leaves, extras, _ = decode(c, w, 16)
         assert len(extras) == 2 * len(m) - 1 and extras[-1] == sum(int(v[0], 2) for v in m.values()) % 65536
+        # augmentation values that carry a reference (like a CurrencyCollection with extra currencies)
+        enc = lambda x: (u(x, 16), [rc.RC(u(x, 16))] if x & 1 else [])
+        dec = lambda bits, p, refs, ri: ((int(bits[p:p + 16], 2), refs[ri].hash if int(bits[p:p + 16], 2) & 1 else None), p + 16, ri + (int(bits[p:p + 16], 2) & 1))
+        mr = {k: (v[0], [rc.RC('101')] if i % 2 else []) for i, (k, v) in enumerate(m.items())}
+        c = encode(mr, w, aug=(lambda v: int(v[0], 2), lambda a, b: (a + b) % 65536, enc))
+        leaves, extras, _ = decode(c, w, dec)
+        assert leaves == {k: (v[0], v[1]) for k, v in norm(mr, w).items()}, 'leaf refs after extra refs'
+        assert all(x[1] == (rc.RC(u(x[0], 16)).hash if x[0] & 1 else None) for x in extras) and len(extras) == 2 * len(m) - 1
